@@ -64,7 +64,8 @@ class Compiler:
         self._output_manifest = OutputManifest() if output_manifest else None
 
         # Remove existing build directory if it's a clean build
-        if clean_build and os.path.exists(self.build_path):
+        # (a manifest run only reports; it must leave the folder as it is)
+        if clean_build and not output_manifest and os.path.exists(self.build_path):
             logging.info('Cleaning existing build directory %s...',
                          self.build_path)
             shutil.rmtree(self.build_path)
